@@ -56,11 +56,15 @@ def _one(arg):
     name = BASES[idx % len(BASES)]
     src = zoo.corpus_image(name, workdir)
     base = C03.Base(src)
-    # journals: undamaged or with a damaged tail only (the statement is about recovery itself)
-    for attempt in range(20):
+    # journals: undamaged, with a damaged tail, or with one logged data block damaged - the last kind
+    # makes recovery replay the rest and then return an error (tag checksums v2/v3), i.e. it drives
+    # the error path of the sync / journal-release ordering
+    for attempt in range(40):
         case = C03.gen_case(rng, base)
+        if idx % 4 == 1 and not (case["damage"] == "flip-data" and case["csum"] in ("v2", "v3")):
+            continue
         if case["txns"] and any(t.committed for t in case["txns"]) and \
-                case["damage"] in ("none", "stale-next", "zero-tail", "missing-commit-mid"):
+                case["damage"] in ("none", "stale-next", "zero-tail", "missing-commit-mid", "flip-data"):
             break
     txns = case["txns"]
     lay = J.build(base.jsb, txns, case["start"], case["first_tid"], case["compat"], case["incompat"],
@@ -94,7 +98,7 @@ def _one(arg):
         out["writes"] = nmod
         out["syncs"] = sum(1 for x in recs if iotrace.is_sync(x))
         # the uninterrupted result R and the model's idea of what had to be replayed
-        expect_sets = [J.predict(txns, 0, applied_upto=u) for u in options]
+        expect_sets = C03.expectations(case, txns, options)
         R = open(post, "rb").read()
         bs = base.bs
         replayed = None
